@@ -14,7 +14,8 @@ EXPLANATION = (
     "reported scalars between the deciding check_termination and post_process, unscale before copy-out; "
     "(R5/R6/R7) units abstract interpretation: reported residuals/costs and returned x,s,z are exactly "
     "un-equilibrated and tau-normalised, residual definitions (signed linear forms: rx = -Px - A'z - tau q, rz = Ax + s - tau b, ...); (R8) caches and mirrors follow the data; (R9) the units premises hold: equilibrate establishes P~d d c, A~e d, q~d c, b~e and every update form / cached norm keeps them; (R10) stage dataflow of DefaultProblemData::new: no stale input after a reducing stage, construction order presolve -> decomposition, mirrored reversal. NOT decided: that iterates are in K x K*, numerical "
-    "accuracy of the KKT solves, rounding.")
+    "accuracy of the KKT solves, rounding."
+    " (R14) presolve drops a row only if the entry b[idx] itself is at/above the contracted bound (C09.R2 re-run).")
 ASSUMPTIONS = [
     'rustc MIR construction and trait resolution are correct',
     'crate-local traits are implemented only inside the crate (class-hierarchy resolution is complete)',
@@ -49,6 +50,9 @@ def run(ctx, rep, tier):
         c10.identity_init(c04._Ren(rep, 'C10.R5', 'C01.R13'), ctx.facts(cfg), '' if cfg == 'default' else '[%s]' % cfg)
     from . import primitives
     primitives.vector_primitives(rep, ctx.facts('default'), ctx.eff('default'), '', 'C01.R11')
+    # the reduced problem the verdict is computed on is the user's problem only if presolve removes nothing but +infinity rows (C09.R2 re-run)
+    from . import c09
+    c09.drop_condition(c04._Ren(rep, 'C09.R2', 'C01.R14'), ctx.facts('default'), '')
 
 
 class _Renamed:
